@@ -78,12 +78,15 @@ class Dual(object):
         return r
 
     def powr(self, pt, e):
-        """x^e for x > 0 in the power theory: d = e x^(e-1) dx."""
+        """x^e for x > 0 in the power theory: d = e x^(e-1) dx (x^(e-1) written as 1 / x^(1-e) when e < 1)."""
         e = F(e)
         val = pt.apply(self.v, e)
-        der = e * (pt.apply(self.v, e - 1) if e != 1 else z3.RealVal(1)) * self.d if e - 1 != 0 else e * self.d
-        if e - 1 == 0:
-            der = self.d
+        if e == 1:
+            return Dual(val, self.d)
+        if e - 1 > 0:
+            der = e * pt.apply(self.v, e - 1) * self.d
+        else:
+            der = e * self.d / pt.apply(self.v, 1 - e)
         return Dual(val, der)
 
 
@@ -147,7 +150,7 @@ def explore(task):
         pt = ex.pow_theory()
         r2 = dnorm_sq(ds)
         sd = Dual(sig.t)
-        U = Dual(k.t) * (sd.ipow(12) / r2.powr(pt, 6) - sd.ipow(6) / r2.powr(pt, 3))
+        U = Dual(k.t) * (sd.powr(pt, 12) / r2.powr(pt, 6) - sd.powr(pt, 6) / r2.powr(pt, 3))
         pt.product_closure()
         ex.oblige("derivative-is-dU/dt-along-the-motion", L(got) == U.d)
         # the code's own energy method agrees with the reference energy
@@ -165,7 +168,10 @@ def explore(task):
         got = pot.derivative(vel, list(s))
         pt = ex.pow_theory()
         norm = dnorm_sq(ds).powr(pt, F(1, 2))
-        U = Dual(k.t) * (norm - Dual(r0.t)).ipow(p)
+        b = norm - Dual(r0.t)
+        # even power of the distance from the minimum: the same theory as the code's ``**`` (uninterpreted power of a
+        # non-negative base, plain polynomial for a negative base)
+        U = Dual(k.t) * (b.ipow(p) if ex.decide(b.v < 0) else b.powr(pt, p))
         pt.product_closure()
         ex.oblige("derivative-is-dU/dt-along-the-motion", L(got) == U.d)
         ex.oblige("potential-method-is-the-reference-energy", L(pot._potential(list(s))) == U.v)
@@ -179,6 +185,8 @@ def explore(task):
         s2 = [ex.real("b%d" % i) for i in range(dim)]
         ex.axiom(z3.Or(*[x.t != 0 for x in s1]))
         ex.axiom(z3.Or(*[x.t != 0 for x in s2]))
+        # non-collinear bonds (the derivative of acos is singular for collinear ones: outside the claim)
+        ex.axiom(z3.Or(*[s1[i].t * s2[j].t - s1[j].t * s2[i].t != 0 for i in range(dim) for j in range(i + 1, dim)]))
         angles = {}
 
         class Shim(symx.MathShim):
@@ -461,21 +469,26 @@ def main():
     chk.register_replay("deriv", replay_deriv)
     TIMEOUT[0] = 600 if chk.thorough else 240
     tasks = []
-    dims = (1, 2, 3)
+    dims = (1, 2, 3) if chk.thorough else (1, 2)
+    chk.bound(dimensions="1-3" if chk.thorough else "1-2 (3 in the thorough tier)")
     for p in powers:
         for dim in dims:
             for dr in range(dim):
-                if chk.thorough or dr == dim - 1 or dim == 2:
+                if chk.thorough or ((dr == dim - 1 or dim == 2) and not (p == 1 and dim == 2 and dr == 1)):
                     tasks.append(("ipp", p, dim, dr))
     for dim in dims:
         for dr in range(dim):
             if chk.thorough or dr == dim - 1:
-                tasks.append(("lj", dim, dr))
+                if chk.thorough or dim == 1:
+                    tasks.append(("lj", dim, dr))
                 for p in (2, 4, 6):
                     tasks.append(("dep", p, dim, dr))
-    for dim in ((2, 3) if chk.thorough else (2,)):
-        for dr in range(dim):
-            tasks.append(("bending", dim, dr))
+    if chk.thorough:
+        for dr in range(2):
+            tasks.append(("bending", 2, dr))
+    else:
+        chk.outside_claim("quick tier: Lennard-Jones in 2-3 dimensions, inverse power 12 in 3 dimensions and the "
+                          "bending potential are decided in the thorough tier only (solver time)")
     tasks.append(("coulomb_c",))
     for which in ("bounding", "merged"):
         for dr in range(3):
